@@ -61,6 +61,10 @@ func init() {
 		"(*sync/atomic.Value).Load":               intrAtomicValueLoad,
 		"time.Unix":                               intrTimeUnix,
 		"(time.Time).Local":                       intrTimeLocal,
+		"(time.Time).In":                          intrTimeIn,
+		"(time.Time).Zone":                        intrTimeZone,
+		"time.Now":                                intrTimeNow,
+		"time.FixedZone":                          intrTimeFixedZone,
 		"(time.Time).UTC":                         intrTimeUTC,
 		"(time.Time).Date":                        intrTimeDate,
 		"(time.Time).Clock":                       intrTimeClock,
@@ -986,6 +990,44 @@ func intrTimeUnix(e *Exec, _ *Frame, fn *ssa.Function, args []Value) Value {
 func intrTimeLocal(e *Exec, _ *Frame, _ *ssa.Function, args []Value) Value {
 	t := e.copyVal(args[0]).(StructV)
 	t[0] = e.ctx.Const(64, 1)
+	return t
+}
+
+// time.Now: an arbitrary instant (zone tag 9: "wall clock", never equal to a decoded instant's tag).
+func intrTimeNow(e *Exec, _ *Frame, fn *ssa.Function, _ []Value) Value {
+	z := e.zero(fn.Signature.Results().At(0).Type()).(StructV)
+	z[0] = e.ctx.Const(64, 9)
+	z[1] = e.newVar(64, "v")
+	return z
+}
+
+// (Time).Zone: abbreviation and offset in force at that instant: unknown text, arbitrary offset.
+func intrTimeZone(e *Exec, _ *Frame, _ *ssa.Function, _ []Value) Value {
+	return TupleV{e.opaqueStr("time zone abbreviation"), e.newVar(64, "v")}
+}
+
+// time.FixedZone: a Location that is neither Local nor UTC (zone tag 3).
+func intrTimeFixedZone(e *Exec, _ *Frame, _ *ssa.Function, _ []Value) Value {
+	cell := new(Value)
+	*cell = StructV{e.ctx.Const(64, 3)}
+	return PtrV{cell: cell}
+}
+
+// (Time).In(loc): the instant in loc; Local and UTC are the two known locations, any other one is
+// a different zone (calendar fields are uninterpreted functions of (zone tag, instant)).
+func intrTimeIn(e *Exec, _ *Frame, _ *ssa.Function, args []Value) Value {
+	t := e.copyVal(args[0]).(StructV)
+	loc := args[1].(PtrV)
+	tag := uint64(3)
+	switch {
+	case loc.cell != nil && loc.cell == e.timeLocs["Local"]:
+		tag = 1
+	case loc.cell != nil && loc.cell == e.timeLocs["UTC"]:
+		tag = 2
+	case loc.IsNil():
+		e.rtPanic("explicit", "time: missing Location in call to Time.In")
+	}
+	t[0] = e.ctx.Const(64, tag)
 	return t
 }
 
